@@ -114,6 +114,9 @@ func (rd *reader) run(d *Driver, present []atomic.Bool, stop chan struct{}, wg *
 		rd.loads = 0
 		l := d.pc.List()
 		hi := d.PubIdx.Load()
+		if n := d.pc.Len(); n < 0 || n > 2*len(d.cfg.Provs) { // Len is a read as well: it must not wait for a writer either
+			rd.bad = fmt.Sprintf("Len() = %d with %d providers", n, len(d.cfg.Provs))
+		}
 		obs := make([]int, len(d.cfg.Provs))
 		for _, pi := range l {
 			for i, p := range d.cfg.Provs {
